@@ -3,6 +3,7 @@ package fscache
 import (
 	"os"
 	"path"
+	"sort"
 	"sync"
 
 	"github.com/goatcms/goatcore/filesystem"
@@ -69,20 +70,31 @@ func (c *Cache) Commit() (err error) {
 	)
 	c.changes.removeMU.RLock()
 	defer c.changes.removeMU.RUnlock()
-	for src = range c.changes.remove {
-		if c.remoteFS.IsFile(src) {
-			if err = c.remoteFS.Remove(src); err != nil {
-				return err
-			}
-		}
-	}
 	c.changes.removeAllMU.RLock()
 	defer c.changes.removeAllMU.RUnlock()
+	// children before their parents ("a/b" sorts after "a"): a directory that was emptied
+	// node by node and then removed must find itself empty in the remote filespace too
+	removed := make([]string, 0, len(c.changes.remove)+len(c.changes.removeAll))
+	for src = range c.changes.remove {
+		removed = append(removed, src)
+	}
 	for src = range c.changes.removeAll {
-		if c.remoteFS.IsExist(src) {
-			if err = c.remoteFS.RemoveAll(src); err != nil {
-				return err
-			}
+		if !c.changes.remove[src] {
+			removed = append(removed, src)
+		}
+	}
+	sort.Sort(sort.Reverse(sort.StringSlice(removed)))
+	for _, src = range removed {
+		if !c.remoteFS.IsExist(src) {
+			continue
+		}
+		if c.changes.removeAll[src] {
+			err = c.remoteFS.RemoveAll(src)
+		} else {
+			err = c.remoteFS.Remove(src)
+		}
+		if err != nil {
+			return err
 		}
 	}
 	c.changes.mkdirAllMU.RLock()
@@ -296,21 +308,37 @@ func (c *Cache) Filespace(subPath string) (filesystem.Filespace, error) {
 // Remove delete node by path
 func (c *Cache) Remove(dest string) (err error) {
 	dest = varutil.CleanPath(dest)
+	if !c.IsExist(dest) {
+		return goaterr.Errorf("%s does not exist", dest)
+	}
+	if c.IsDir(dest) {
+		var nodes []os.FileInfo
+		if nodes, err = c.ReadDir(dest); err != nil {
+			return err
+		}
+		if len(nodes) != 0 {
+			return goaterr.Errorf("%s is not an empty directory", dest)
+		}
+	}
 	if c.bufferFS.IsExist(dest) {
-		err = c.bufferFS.Remove(dest)
+		if err = c.bufferFS.Remove(dest); err != nil {
+			return err
+		}
 	}
 	c.changeRemove(dest, true)
-	return err
+	return nil
 }
 
 // RemoveAll delete node by path recursively
 func (c *Cache) RemoveAll(dest string) (err error) {
 	dest = varutil.CleanPath(dest)
 	if c.bufferFS.IsExist(dest) {
-		err = c.bufferFS.RemoveAll(dest)
+		if err = c.bufferFS.RemoveAll(dest); err != nil {
+			return err
+		}
 	}
 	c.changeRemoveAll(dest, true)
-	return err
+	return nil
 }
 
 // Lstat returns a FileInfo describing the named file.
